@@ -40,6 +40,8 @@ type c05NPod struct {
 	pod      *corev1.Pod
 	req      corev1.ResourceList
 	affinity string
+	affName  string // reservation name of a by-name affinity
+	affGroup string // group label value of a by-selector / by-terms affinity
 	ignored  bool
 	node     string    // bound / assumed on
 	rUID     types.UID // assigned to
@@ -140,15 +142,18 @@ func c05NGenPod(r *kit.Rand, i int, rsvNames []string) *c05NPod {
 	switch r.Weighted(50, 18, 14, 12, 6) {
 	case 1:
 		np.affinity = "selector"
-		_ = apiext.SetReservationAffinity(p, &apiext.ReservationAffinity{ReservationSelector: map[string]string{"rsv-group": kit.Pick(r, []string{"g1", "g2"})}})
+		np.affGroup = kit.Pick(r, []string{"g1", "g2"})
+		_ = apiext.SetReservationAffinity(p, &apiext.ReservationAffinity{ReservationSelector: map[string]string{"rsv-group": np.affGroup}})
 	case 2:
 		np.affinity = "name"
-		_ = apiext.SetReservationAffinity(p, &apiext.ReservationAffinity{Name: kit.Pick(r, rsvNames)})
+		np.affName = kit.Pick(r, rsvNames)
+		_ = apiext.SetReservationAffinity(p, &apiext.ReservationAffinity{Name: np.affName})
 	case 3:
 		np.affinity = "terms"
+		np.affGroup = kit.Pick(r, []string{"g1", "g2"})
 		_ = apiext.SetReservationAffinity(p, &apiext.ReservationAffinity{RequiredDuringSchedulingIgnoredDuringExecution: &apiext.ReservationAffinitySelector{
 			ReservationSelectorTerms: []corev1.NodeSelectorTerm{{MatchExpressions: []corev1.NodeSelectorRequirement{{Key: "rsv-group", Operator: corev1.NodeSelectorOpIn,
-				Values: []string{kit.Pick(r, []string{"g1", "g2"})}}}}}}})
+				Values: []string{np.affGroup}}}}}}})
 	case 4:
 		np.ignored = true
 		p.Labels[apiext.LabelReservationIgnored] = "true"
@@ -182,7 +187,7 @@ func TestVerifC05Nominate(t *testing.T) {
 	ctx := context.TODO()
 
 	kit.Run(t, kit.Config{Property: "C05", Unit: "nominate", Quick: 6000, Thorough: 200000,
-		Rule: "2-5 Available reservations (owner specification of 1-3 entries from a pool of label / object / controller selectors, allocate-once default / true / false, default / Aligned / Restricted policy, group label, 8% unschedulable) on 3 nodes that never limit, 5-9 pods (labels, owner references, namespaces; 44% with a reservation affinity by selector, by name or by terms; 6% ignoring reservations), 8-20 steps: sequential scheduling cycles through the real plugin entry points ending in bind or Unreserve, deletion of assigned pods, completion of reservations, new reservations; distinct = (#reservations, affinity kind, #matched on the node, allocate-once reservation with a pod among the matched, PreScore used, ReservationNominate used, outcome, policy and allocate-once of the nominated reservation); non-trivial = a cycle whose matched set contained an allocate-once reservation that already had an assigned pod"},
+		Rule: "2-5 Available reservations (owner specification of 1-3 entries from a pool of label / object / controller selectors, allocate-once default / true / false, default / Aligned / Restricted policy, group label, 8% unschedulable) on 3 nodes that never limit, 5-9 pods (labels, owner references, namespaces; 44% with a reservation affinity by selector, by name or by terms; 6% ignoring reservations), 8-20 steps: sequential scheduling cycles through the real plugin entry points ending in bind or Unreserve, deletion of assigned pods, completion of reservations, new reservations, preemption dry runs (BeforePreFilter of a preemptor with a reservation affinity requesting reserved-1 / reserved / reserved+1 unit / far above of a Restricted reservation, RemovePod extension for a victim that is only nominated to the reservation and requests more than it has allocated, Filter); distinct = (#reservations, affinity kind, #matched on the node, allocate-once reservation with a pod among the matched, PreScore used, ReservationNominate used, outcome, policy and allocate-once of the nominated reservation); non-trivial = a cycle whose matched set contained an allocate-once reservation that already had an assigned pod"},
 		func(c *kit.Case) {
 			r := c.R
 			cache := newReservationCache(nil)
@@ -292,10 +297,210 @@ func TestVerifC05Nominate(t *testing.T) {
 					}
 				}
 			}
+			// dryRun: a preemption dry run at plugin level. A preemptor that must allocate from a reservation
+			// (it carries a reservation affinity) and whose request in one restricted dimension is
+			// reserved-1 / reserved / reserved+1 unit / far above is pre-filtered; then the plugin's RemovePod
+			// extension is called for a victim that is only NOMINATED to the restricted reservation (found
+			// through GetNominatedReservation, not part of Allocated) and that requests more than the
+			// reservation has allocated; then the reservation Filter runs. Filter passed => some reservation
+			// the Filter considered lets the preemptor in: not Restricted, or in every restricted dimension
+			// max(0, sum(assigned) - preemptible) + request <= reserved.
+			dryRun := func(step int) {
+				// pairs (preemptor class, restricted reservation) that plausibly match (80%), or any pair
+				type pair struct {
+					np *c05NPod
+					x  *c05NRsv
+				}
+				var pairs, anyPairs []pair
+				for _, np := range pods {
+					if np.deleted || np.node != "" || np.affinity == "" || np.ignored {
+						continue
+					}
+					for _, x := range rsvs {
+						if x.gone || x.res.Spec.AllocatePolicy != schedulingv1alpha1.ReservationAllocatePolicyRestricted {
+							continue
+						}
+						anyPairs = append(anyPairs, pair{np, x})
+						if c05Match(x.res.Spec.Owners, np.pod) && !x.res.Spec.Unschedulable &&
+							(np.affName == x.res.Name || np.affGroup != "" && np.affGroup == x.res.Labels["rsv-group"]) {
+							pairs = append(pairs, pair{np, x})
+						}
+					}
+				}
+				if len(anyPairs) == 0 {
+					return
+				}
+				pr := kit.Pick(r, anyPairs)
+				if len(pairs) > 0 && r.Pct(80) {
+					pr = kit.Pick(r, pairs)
+				}
+				np, x := pr.np, pr.x
+				res := x.res
+				dims, ok := c05Dims(res)
+				if !ok {
+					return
+				}
+				reserved := c05Reserved(res)
+				var dimList []corev1.ResourceName
+				for _, n := range c05ResNames {
+					if dims[n] {
+						dimList = append(dimList, n)
+					}
+				}
+				if len(dimList) == 0 {
+					return
+				}
+				node := res.Status.NodeName
+				// the preemptor: same identity class as the picked pod, other request
+				q := np.pod.DeepCopy()
+				q.Name, q.UID = np.pod.Name+"-preemptor", np.pod.UID+"-preemptor"
+				qreq := corev1.ResourceList{}
+				dim := kit.Pick(r, dimList)
+				class := kit.Pick(r, []string{"below", "at", "above", "far_above"})
+				amount := reserved[dim].DeepCopy()
+				switch class {
+				case "below":
+					amount.Sub(c05Unit(dim))
+				case "above":
+					amount.Add(c05Unit(dim))
+				case "far_above":
+					amount.Add(reserved[dim])
+					amount.Add(c05Lot(dim))
+				}
+				if amount.Sign() <= 0 {
+					return
+				}
+				qreq[dim] = amount
+				q.Spec.Containers = []corev1.Container{{Name: "c0", Resources: corev1.ResourceRequirements{Requests: qreq}}}
+				// the nominated-only victim requests, in every restricted dimension, what the reservation has
+				// allocated plus one unit / plus a lot
+				sumAssigned := corev1.ResourceList{}
+				for _, o := range liveAssigned(res.UID, "") {
+					for n, qn := range reqOf(o) {
+						if dims[n] {
+							sumAssigned[n] = c05Add(sumAssigned[n], qn)
+						}
+					}
+				}
+				excess := kit.Pick(r, []string{"unit", "lot"})
+				vreq := corev1.ResourceList{}
+				for _, n := range dimList {
+					v := sumAssigned[n].DeepCopy()
+					if excess == "unit" {
+						v.Add(c05Unit(n))
+					} else {
+						v.Add(c05Lot(n))
+					}
+					vreq[n] = v
+				}
+				victim := &corev1.Pod{ObjectMeta: metav1.ObjectMeta{Namespace: "default", Name: "nominated-victim", UID: types.UID(fmt.Sprintf("victim-%d", step))},
+					Spec: corev1.PodSpec{Containers: []corev1.Container{{Name: "c0", Resources: corev1.ResourceRequirements{Requests: vreq}}}}}
+				refreshSnapshot()
+				cs := framework.NewCycleState()
+				if _, _, st := pl.BeforePreFilter(ctx, cs, q); !st.IsSuccess() {
+					return
+				}
+				state := getStateData(cs)
+				var considered []*frameworkext.ReservationInfo
+				target := false
+				if nrs := state.nodeReservationStates[node]; nrs != nil {
+					for _, ri := range nrs.matchedOrIgnored {
+						if np.affName != "" && ri.GetName() != np.affName {
+							continue // a by-name affinity makes the Filter look at that reservation only
+						}
+						considered = append(considered, ri)
+						if ri.UID() == res.UID {
+							target = true
+						}
+					}
+				}
+				if !target {
+					c.Count("preempt_dryrun_reservation_not_matched", 1)
+					return
+				}
+				live := cache.getReservationInfoByUID(res.UID)
+				pl.nominator.AddNominatedReservation(victim, node, live)
+				nodeInfo, _ := lister.Get(node)
+				victimInfo, err := framework.NewPodInfo(victim)
+				if err != nil {
+					c.Harness("NewPodInfo: %v", err)
+				}
+				if st := pl.RemovePod(ctx, cs, q, victimInfo, nodeInfo); !st.IsSuccess() {
+					c.Harness("RemovePod extension failed: %v", st.Message())
+				}
+				fst := pl.Filter(ctx, cs, q, nodeInfo)
+				pl.AddPod(ctx, cs, q, victimInfo, nodeInfo)
+				pl.DeleteNominatedReservePodOrReservation(victim)
+				pl.DeleteNominatedReservePodOrReservation(q)
+				// oracle
+				lets := false
+				for _, ri := range considered {
+					rr := ri.Reservation
+					if rr.Spec.AllocatePolicy != schedulingv1alpha1.ReservationAllocatePolicyRestricted {
+						lets = true
+						continue
+					}
+					rdims, ok := c05Dims(rr)
+					if !ok {
+						lets = true
+						continue
+					}
+					fits := true
+					for n := range rdims {
+						rq, has := qreq[n]
+						if !has || rq.IsZero() {
+							continue
+						}
+						stays := resource.Quantity{}
+						for _, o := range liveAssigned(rr.UID, "") {
+							stays.Add(reqOf(o)[n])
+						}
+						if rr.UID == res.UID {
+							stays.Sub(vreq[n])
+							if stays.Sign() < 0 {
+								stays = resource.Quantity{}
+							}
+						}
+						stays.Add(rq)
+						if stays.Cmp(c05Reserved(rr)[n]) > 0 {
+							fits = false
+						}
+					}
+					if fits {
+						lets = true
+					}
+				}
+				c.Op("step %d preemption dry run: preemptor %s requests %s (%s of reserved %s), victim nominated to %s(%s) requests %s (allocated %s), considered=%d -> Filter passed=%v %s", step, q.Name,
+					c05RL(qreq), class, c05RL(reserved), res.Name, res.UID, c05RL(vreq), c05RL(sumAssigned), len(considered), fst.IsSuccess(), fst.Message())
+				c.Count("preempt_dryrun_filters", 1)
+				c.Count("preempt_dryrun_request_"+class, 1)
+				if len(sumAssigned) == 0 {
+					c.Count("preempt_dryrun_nothing_allocated", 1)
+				}
+				c.Seen("dryrun", class, excess, len(considered), len(sumAssigned) == 0, fst.IsSuccess(), lets)
+				if fst.IsSuccess() {
+					c.Count("preempt_dryrun_filter_passed", 1)
+					if !lets {
+						c.Fail("C05/fit/filter-passed-over-reserved", "preemption dry run: Filter passed preemptor %s requesting %s although none of the %d reservations it considered on %s lets it in (restricted reservation %s(%s) reserves %s, has %s allocated, nominated-only victim requests %s)",
+							q.Name, c05RL(qreq), len(considered), node, res.Name, res.UID, c05RL(reserved), c05RL(sumAssigned), c05RL(vreq))
+					}
+				} else {
+					c.Count("preempt_dryrun_filter_rejected", 1)
+					if class == "above" || class == "far_above" {
+						c.Count("preempt_dryrun_rejected_over_reserved", 1)
+					}
+					if lets {
+						c.Count("converse_misses_dryrun_filter_rejected", 1)
+					}
+				}
+			}
 			sawTakenOnce := false
 			nsteps := r.Range(8, 20)
 			for step := 0; step < nsteps; step++ {
-				switch r.Weighted(72, 14, 6, 8) {
+				switch r.Weighted(66, 13, 6, 7, 8) {
+				case 4:
+					dryRun(step)
+					continue
 				case 1: // an assigned pod is deleted
 					var cand []*c05NPod
 					for _, np := range pods {
